@@ -503,7 +503,7 @@ func runE3(prop string, cfg *propCfg, tier string, seed uint64) int {
 		}
 		rf := e3Replay{Property: prop, Rule: v.Rule, Sig: v.Sig, Msg: v.Msg, Workload: v.Workload, Point: v.Point, Call: v.Call, TreeHash: b.treeHash,
 			Trace: []string{fmt.Sprintf("workload %+v", v.Workload), fmt.Sprintf("SIGKILL on entry to FS call #%d of the save: %s[%d] %s", v.Point, v.Call.Name, v.Call.Ordinal, v.Call.Text), v.Msg}}
-		path := filepath.Join(verifDir, "replays", fmt.Sprintf("%s-%s-seed%d-p%d.json", prop, sanitize(key), seed, v.Point))
+		path := filepath.Join(outDir("replays"), fmt.Sprintf("%s-%s-seed%d-p%d.json", prop, sanitize(key), seed, v.Point))
 		jb, _ := json.MarshalIndent(rf, "", " ")
 		_ = os.MkdirAll(filepath.Dir(path), 0o755)
 		_ = os.WriteFile(path, jb, 0o644)
